@@ -68,7 +68,11 @@ def run(ctx):
             ctx.violate("R1", f"{f.name}: expected exactly one `with open(...)`", f, f.node, construct="with open")
             continue
         ocall = opens[0].node
-        mode = ocall.args[1] if len(ocall.args) > 1 else None
+        mode = ocall.args[1] if len(ocall.args) > 1 else next((k.value for k in ocall.keywords if k.arg == "mode"), None)
+        if not (isinstance(mode, ast.Constant) and mode.value == "w"):
+            ctx.violate("R1", f"{f.name} opens the output with mode `{src_of(mode) if mode is not None else 'r (default)'}`: the contract is a fresh text file (`w`); appending or reading modes leave old content in place or fail", f, ocall)
+        else:
+            ctx.ok("R1", f"{f.name}: output opened with mode 'w'", f"{f.module.relpath}:{ocall.lineno}", sample=False)
         wst = pm[id(pm[id(ocall)])]
         onode = cfg.idx(wst)
 
@@ -167,7 +171,11 @@ def run(ctx):
                 return h is not None and len(h.body) == 1 and isinstance(h.body[0], ast.Raise) and h.body[0].exc is None
 
             def converts(h, to):
-                return h is not None and isinstance(h.body[-1], ast.Raise) and raises_class(h.body[-1]) == to
+                # every path through the handler ends in a raise (an early `return` would swallow the failure), and the
+                # raise at its end is the conversion
+                from .c07 import _ends_raising
+
+                return h is not None and isinstance(h.body[-1], ast.Raise) and raises_class(h.body[-1]) == to and _ends_raising(h.body)
 
             if has_check or "prepare_dump" in body_calls:
                 if inside_with:
@@ -367,6 +375,10 @@ def run(ctx):
     from .apiplumb import check_many_required
 
     check_many_required(ctx, "R8")
+    from .apiplumb import check_prepare_error_sources
+
+    ctx.rule("R9", "PrepareDumpError is raised only before the output file is opened", "a writer reports `bad atom_columns` as PrepareDumpError after truncating the file")
+    check_prepare_error_sources(ctx, "R9")
     ctx.rule("R7", "variants a writer does not implement are rejected by its pre-flight (evaluated)", "an object the writer can only answer with 'not implemented' gets past the pre-flight: the target file is truncated before the failure")
     check_unimplemented_variants(ctx, "R7")
 
